@@ -169,6 +169,19 @@ var scenarios = map[string]scenario{
 		s.N.Receive(s.PreCommit(3, p))
 		return s.W
 	}},
+	// D8: timePerBlock << (view+1) overflowed into a negative timer duration at high views.
+	"D8-view-timeout-overflow": {Prop: "C10", Key: "D8-negative-duration-high-view", Run: func(keep bool) *sim.World {
+		cfg := soloCfg(4, 1, -1)
+		cfg.TimePerBlock = 15 * time.Second
+		s := sim.NewSolo(cfg, &ReplaySrc{}, 0, false, []*sim.Mon{sim.MonC10()}, keep)
+		s.N.Start()
+		for v := byte(0); v < 40 && len(s.W.Viols) == 0; v++ {
+			for _, j := range s.Others() { // M = 3 requests from the others move the node on their own
+				s.N.Receive(s.CV(j, v, v+1))
+			}
+		}
+		return s.W
+	}},
 	// D12: the primary counted an early response naming another proposal.
 	"D12-primary-early-response": {Prop: "C04", Key: "commit-without-prep-quorum", Run: func(keep bool) *sim.World {
 		s := sim.NewSolo(soloCfg(7, 5, -1), &ReplaySrc{}, 0, false, []*sim.Mon{sim.MonC04()}, keep)
